@@ -10,7 +10,7 @@ CFG = """SPECIFICATION Spec
 CONSTANTS
   Keys = {"a", "b", "c", "d"}
   Labels = {0, 1}
-  Filters = {"null", "all", "lx1", "lx0", "fnx0", "nlx1", "nsa", "anx0", "anx1", "nsp1", "nsp2", "sel0", "selall"}
+  Filters = {"null", "all", "lx1", "lx0", "fnx0", "nlx1", "nsa", "anx0", "anx1", "nsp1", "nsp2", "nnpa", "nnpb", "sel0", "selall"}
 INVARIANT Done
 CHECK_DEADLOCK FALSE
 """
@@ -55,7 +55,7 @@ VARIANTS = {
     "C13": [("ctl:timing", 1.0)],
     "C14": [("ctl:listfail", 0.7), ("ctl:watch", 0.3)],
     "C15": [("cachelin:readers", 1.0)],
-    "C16": [("monitor", 1.0)],
+    "C16": [("monitor", 0.85), ("overflow", 0.15)],
 }
 # scenarios per process for the real-time controller variants (quick, thorough)
 CTL_PER = {"relist": (6, 60), "watch": (1, 8), "listfail": (8, 80), "timing": (2, 15), "shutdown": (10, 100)}
